@@ -347,7 +347,7 @@ func (w *World) intrinsic(fn *ssa.Function) (handler, bool) {
 	if o := fn.Origin(); o != nil {
 		name = o.Name()
 	}
-	if !strings.HasPrefix(name, "gocv_") {
+	if !strings.HasPrefix(name, "gocv_") && name != "byteAt" {
 		return nil, false
 	}
 	if !w.isTargetFn(fn) {
